@@ -1,17 +1,42 @@
 """C09 — subtype search and irrelevant-type search return only what they promise.
 
-proof side : lean/Heph/Props/C09.lean (findTypes / findTypesNominal / availTypes / irrelevantNominal of
-             Model/Find.lean against SubT / Asg; result checkers subtypesOK / irrelevantOK judged by the
-             declarative decider isSubD, sound for Asg)
-tie to code: every invocation of `_find_types` and `find_irrelevant_type` (nested ones included) is
-             recorded by pass-through wrappers (find_lib.Instrument) on queries over random completed
-             class tables and during real generator + TypeOverwriting runs;
+proof side : lean/Heph/Props/C09.lean (findTypes / findTypesNominal / availTypes / irrelevantNominal /
+             candidateArgs / irrelevantParam of Model/Find.lean against SubT / Asg; result checkers subtypesOK /
+             irrelevantOK judged by the declarative decider isSubD, sound for Asg; candidateArgs_sound,
+             irrelevantParam_neq)
+tie to code: every invocation of `_find_types`, `find_irrelevant_type`, `_find_candidate_type_args` and
+             `get_irrelevant_parameterized_type` (nested ones included) is recorded by pass-through wrappers
+             (find_lib.Instrument);
              EXACT: the set before `to_type` == model `findTypes` given the recorded related
-             instantiation; `available_types` == model `availTypes` given the two recorded lists;
+             instantiation; `available_types` == model `availTypes` given the two recorded lists; the nested
+             `_find_types` calls of `_find_candidate_type_args` (which type, which DIRECTION) == model
+             `candidateCalls` and its candidate list == model `candidateArgs` of the recorded answers; the answer
+             of `get_irrelevant_parameterized_type` == model `irrelevantParam` of the recorded replacements;
              REFINEMENT (the property itself, judged on the implementation's answers): every list
              returned by a top-level search passes `subtypesOK`, every answer of
              `find_irrelevant_type` passes `irrelevantOK` (Lean checkers, decider isSubD), and
-             independently the Python reference decider refsub agrees with each rejection.
+             independently the Python reference decider refsub agrees with each rejection; below the top level:
+             the whole candidate SET of a position must be contained in the query's argument when the nested
+             searches kept their promise (reference decider; no sampling of `random.choice` needed), an
+             irrelevant instantiation must not carry the relevant arguments.
+streams    : witnesses of the recorded findings; STRUCTURED strata over a hand-made table (chain New > Foo > Bar >
+             Baz, one constructor per declared variance, Fn<in A, out R>, Pair, the built-in Function1; Kotlin and
+             Java, thorough: all four languages): every declared variance x every use-site form (none/out/in/star)
+             x both directions x include_self/concrete_only, arguments with proper sub- and supertypes in the
+             table; instantiations nested 2-3 deep under invariant / covariant / contravariant parameters for
+             find_subtypes / find_supertypes / find_irrelevant_type over the minimal type list of the query, that
+             list + 1, and the full table; direct calls of `_find_candidate_type_args` (3 variances x 4 forms x 2
+             directions x ignore_variance) and `get_irrelevant_parameterized_type`; several seeds of
+             `src.utils.random` per query; RANDOM completed class tables (projections made to agree with the
+             declared variance; each parameterized irrelevant query repeated over its minimal type list with
+             further seeds); real generator + TypeOverwriting runs.  The evidence carries the input distribution
+             (`dist_*`, `seeds_per_query`, `irrelevant_distinct_answers_per_query`, `generator_dist_*`).
+history    : two seeded changes (seeded/C09-1: `get_irrelevant_parameterized_type` returns the relevant
+             instantiation; seeded/C09-2: direction flipped twice for a contravariant parameter with an `in`
+             projection) passed the check as of commit 46ea75f: the judges rejected both answers when shown, but
+             the streams held 30 modelled `get_irrelevant_parameterized_type` invocations (none reproducing the old
+             arguments) and 1 query with declaration-site `in` + use-site `in` (no proper subtype of the bound in
+             the table), and the signature `in-to-bare` of a recorded finding would have swallowed the second.
 """
 import common
 from common import canon
@@ -144,6 +169,8 @@ def synthetic(run, ntables, per_table):
                                 mini.append(c)
                             others = [t for t in types if not any(t == m for m in mini)]
                             mini += rng.sample(others, min(len(others), rng.randint(0, 2)))
+                            if not any(kind(t) in ("s", "b") for t in mini):
+                                mini.append(rng.choice(tb.boxed_builtins()))    # something to instantiate with
                             for _s in range(FOCUS_SEEDS):
                                 utils.random.r.seed(rng.randrange(1 << 30))
                                 try:
@@ -390,6 +417,9 @@ def witness_tables():
     Node = tp.TypeConstructor("Node", [tp.TypeParameter("Y")], [kt.Any])
     Wrap = tp.SimpleClassifier("Wrap", [kt.Any])
     Leaf = tp.SimpleClassifier("Leaf", [Node.new([Wrap]), kt.Any])
+    NodeIn = tp.TypeConstructor("NodeIn", [tp.TypeParameter("V", tp.Contravariant)], [kt.Any])
+    X3 = tp.TypeParameter("X")
+    TreeC = tp.TypeConstructor("TreeC", [X3], [NodeIn.new([X3])])
     return [
         ("generic_subclass", "irrelevant", bt, Foo, [Foo, Bar, Baz, kt.String],
          lambda r: kind(r) == "p" and r.name == "Bar"),
@@ -410,6 +440,8 @@ def witness_tables():
          [tp.TypeConstructor("Sink", [tp.TypeParameter("T", tp.Contravariant)], [kt.Any]), Box, Foo, Baz],
          lambda r: kind(r) == "p" and r.name == "Sink" and kind(r.type_args[0]) == "p" and r.type_args[0].name == "Box"
          and kind(r.type_args[0].type_args[0]) != "w"),
+        ("generic_subclass_contravariant", "irrelevant", bt, TreeC.new([NodeIn.new([Foo])]), [TreeC, NodeIn, Foo, kt.String],
+         lambda r: kind(r) == "p" and r.name == "NodeIn" and kind(r.type_args[0]) == "p" and r.type_args[0].name == "TreeC"),
         ("type_variable_bound_chain", "irrelevant", bt, tp.TypeParameter("Z", bound=tp.TypeParameter("V", bound=kt.Double)),
          [kt.Double, kt.String, Foo], lambda r: r == kt.Double),
         ("nested_contravariant_projection", "subtypes", bt,
@@ -424,10 +456,13 @@ def run_witness(tu, w, seed):
     from src import utils
     name, func, bt, q, types, pred = w
     utils.random.r.seed(seed)
-    if func == "irrelevant":
-        r = tu.find_irrelevant_type(q, types, bt)
-        return r is not None and pred(r)
-    return pred(tu.find_subtypes(q, types, include_self=True, concrete_only=True))
+    try:
+        if func == "irrelevant":
+            r = tu.find_irrelevant_type(q, types, bt)
+            return r is not None and pred(r)
+        return pred(tu.find_subtypes(q, types, include_self=True, concrete_only=True))
+    except IndexError:          # nothing to instantiate a constructor with (short type list): no answer
+        return False
 
 
 def detect_variant():
@@ -527,13 +562,18 @@ def check(run):
     quick = run.tier == "quick"
     import pipeline
     pipeline.setup()
-    run.cov["rule"] = ("every invocation (nested ones included) of _find_types and find_irrelevant_type on queries over random "
+    run.cov["rule"] = ("every invocation (nested ones included) of _find_types, find_irrelevant_type, _find_candidate_type_args "
+                       "and get_irrelevant_parameterized_type on (a) structured strata over a hand-made table: declared "
+                       "variance x use-site form x direction x flags, nested instantiations over minimal / full type lists, "
+                       "direct calls of the two helper functions, several RNG seeds per query; (b) queries over random "
                        "completed class tables (queries: supertypes of classes, classes, instantiations with/without "
                        "projections and type variables, type variables, the top type; type lists: the table's classes and "
                        "constructors, built-ins, sometimes Array and a type variable; find_subtypes / find_supertypes with "
                        "random include_self, bound, concrete_only; find_irrelevant_type) and during generator + "
                        "TypeOverwriting runs; exact: the set before to_type == model findTypes given the recorded related "
-                       "instantiation, available_types == model availTypes; refinement: Lean checkers subtypesOK / "
+                       "instantiation, available_types == model availTypes, nested calls and candidate list of "
+                       "_find_candidate_type_args == model candidateCalls / candidateArgs, get_irrelevant_parameterized_type "
+                       "== model irrelevantParam of the recorded replacements; refinement: Lean checkers subtypesOK / "
                        "irrelevantOK (decider isSubD) on every returned list / answer; non-trivial = non-empty expected set "
                        "or non-empty answer")
     variant, seen = detect_variant()
